@@ -197,6 +197,57 @@ int main(int argc, char** argv)
             }
         }
     }
+    // third loop (own generator, after everything else): COO objects built by the dense-array constructor (arrays longer than
+    // nnz until something trims them), and sums / differences called through the format-generic base-class entry points
+    vh::Rng gd(E.seed * 7919 + 777);
+    for (int it = 0; it < ncases / 2; it++)
+    {
+        vh::Rng& g = gd;
+        int cap = 1 + std::min(6, it / 10);
+        int n_rows = g.range(1, cap), n_cols = g.coin(1, 2) ? n_rows : g.range(1, cap);
+        std::vector<double> dense(n_rows * n_cols); for (auto& v : dense) v = g.coin(1, 2) ? 0 : g.range(-3, 3);
+        vh::Trip t; t.n_rows = n_rows; t.n_cols = n_cols;
+        for (int i = 0; i < n_rows; i++) for (int j = 0; j < n_cols; j++) if (dense[i * n_cols + j] != 0) { t.r.push_back(i); t.c.push_back(j); t.v.push_back(dense[i * n_cols + j]); }
+        const char* dops[] = { "sort", "movediag", "rmdup", "transpose", "copy" };
+        for (int k = 0; k < 5; k++) {
+            COOMatrix* A = new COOMatrix(n_rows, n_cols, dense.data());
+            Matrix* in = vh::make_coo(t);
+            Matrix* out = A;
+            about((std::string("dense_ctor/") + dops[k]).c_str(), 0, t);
+            if (k == 0) A->sort(); else if (k == 1) A->move_diag(); else if (k == 2) A->remove_duplicates(); else if (k == 3) out = A->transpose(); else out = A->copy();
+            if (E.want()) emit1(dops[k], 0, in, nullptr, out);
+            if (out != A) delete out;
+            delete A; delete in;
+        }
+        {   // conversion of the freshly constructed object
+            int dst = g.below(3);
+            COOMatrix* A = new COOMatrix(n_rows, n_cols, dense.data()); Matrix* in = vh::make_coo(t);
+            about("dense_ctor/conv", 0, t, dst);
+            Matrix* out = convert(A, dst);
+            if (E.want()) emit1("conv", dst, in, nullptr, out);
+            if (out != A) delete out;
+            delete A; delete in;
+        }
+        {   // A + B and A - B through Matrix::add / Matrix::subtract for a left operand of every format; the operands must survive
+            vh::Trip ta = vh::gen_trip(g, n_rows, n_cols, g.range(0, 2 * cap + 2), g.coin(), false), tb = vh::gen_trip(g, n_rows, n_cols, g.range(0, 2 * cap + 2), g.coin(), false);
+            int fa = g.below(3);
+            Matrix* A = vh::make_fmt(ta, fa); CSRMatrix* B = vh::make_csr(tb);
+            CSRMatrix* A0 = vh::make_csr(ta); CSRMatrix* B0 = vh::make_csr(tb);
+            about("generic_add", fa, ta);
+            Matrix* C = A->Matrix::add(B);
+            if (E.want()) emit1("add", 0, A0, B0, C);
+            delete C;
+            about("generic_sub", fa, ta);
+            C = A->Matrix::subtract(B);
+            if (E.want()) emit1("sub", 0, A0, B0, C);
+            delete C;
+            // the left operand is still the matrix it was
+            about("generic_add/operand_intact", fa, ta);
+            Matrix* Acopy = A->copy(); Matrix* in2 = vh::make_fmt(ta, fa);
+            if (E.want()) emit1("copy", 0, in2, nullptr, Acopy);
+            delete in2; delete Acopy; delete A; delete B; delete A0; delete B0;
+        }
+    }
     E.finish();
     MPI_Finalize();
     return 0;
